@@ -128,7 +128,7 @@ EXPLANATION = (
     "a function of the inputs and the answers of the given generator only' is a theorem about the translated source (it is "
     "a `prog`, so C18_explicit_stream / exec_is_replay / frame / two_runs_interleaved apply to it as they stand), not a "
     "runtime observation; trace conformance and the runtime traps still run for them and remain the only tie for every "
-    "other operation (SparseCover and Pairwise generators, the other four smoothers, DBAL scorer arithmetic, policy, "
+    "other operation (SparseCover - whose C13 link is re-read for C18 by C18_source_sparse_cover_explicit_stream - and Pairwise generators, the other four smoothers, DBAL scorer arithmetic, policy, "
     "select_next_plate, score_chunk, sampling, CLIs).  The links trust: the translator and Lib/PyRt.v + the rprog vocabulary at the end of "
     "Model/RandProg.v as the meaning of the Python constructs, and exactly these primitives - requests: rng.random() "
     "(RRandom, the double as its order key), rng.choice(a, n, replace=False) (RChoice a n false), rng.choice(n, size=k, "
@@ -193,6 +193,8 @@ THEOREMS.update({
     "C18_global_only_frame": "mirror image of C18_frame: a world (own, global) whose draws are ALL served by the global component (the variational model's training: set_rng stores the seeded generator, nothing reads it): own component returned unchanged, result independent of it and equal to the run on the global generator alone; G any type, e.g. (numpy state, torch state)",
     "C18_given_generator_unread": "for such a step two runs with DIFFERENT given generators (seeds) and the same global state have the same output, requests, answers and final global state: the seed is not an input of it",
     "C18_global_only_repeatable_from_equal_global": "what the observation repeatable-modulo-known-leak relies on: from equal global states even a globally served step is repeatable, so a difference remaining there has another cause than the recorded leak",
+    "C18_sparse_cover_explicit_stream": "the initial cover: RetroInit.sparse_cover (C13's model of SparseCoverPlateGenerator inside its public wrapper, answers as an explicit stream) consumes a prefix of the answers; output and unread rest are the same for every continuation of that prefix",
+    "C18_source_sparse_cover_explicit_stream": "the same about the TRANSLATED source (generate_and_unmask_initial_plate around _generate_and_unmask_initial_plate, Generated/SrcRetroGen.v, with the fuel C13 proves sufficient): its only answer-reading primitive is rng.choice(a, size=1) on its own generator argument, and what it returns depends on the consumed prefix only",
     "C18_model_is_source_cli_evaluate_model_seedless": "evaluate_model.main (whole function, re-translated on this run) equals Cli.cli_evaluate_model, a function of the library record and Cli.ev_args = (screen, thetas, output): no seed component, no draw primitive in the vocabulary - the command is deterministic without reading its declared --seed (same statement as C10's link; re-stated so that C18 breaks when main() starts to read args.seed or to draw)",
 })
 THEOREMS['C18_parser_seed_default_draws'] = ('for any table with Cli.seed_declared: on the default --seed the generator construction of the wrappers '
@@ -1144,7 +1146,7 @@ def judge(desc):
         if any(x.startswith("worker failed") for x in o):
             raise RuntimeError("C18 hash-seed worker failed: %r" % (o,))
         if o[0].split(":")[0] != o[1].split(":")[0]:
-            pred = ("%s: two fresh interpreters that differ only in PYTHONHASHSEED (%s / %s), same inputs and identically seeded generator "
+            pred = ("%s: two fresh interpreters that differ in PYTHONHASHSEED (%s / %s), process id and wall-clock second only, same inputs and identically seeded generator "
                     "(seed %s), give different outputs: %s  VERSUS  %s" % (op, HASH_SEEDS[0], HASH_SEEDS[1], d.get("seed"), o[0][41:300], o[1][41:300]))
             sig = op + ":hash-seed-dependent-output"
     elif a == "given-generator":
